@@ -35,6 +35,26 @@ claimed = {
          "Every sequence of depth <=2 (thorough: <=3 on a reduced alphabet) over an 80-command alphabet of the 16 set commands from 9 initial states, an expired-operands lane, seeded random programs (duplicates, 1..n operands, repeated and missing keys, destination equal to a source, counts/limits at the boundaries), and an alias lane that follows every ...STORE / SMOVE with a mutation of the destination so that shared structure shows up in the whole-store dump.",
          "Trusts the verif-tagged dump, virtual clock and reference model (set-valued where silent). SDIFF/SDIFFSTORE with an absent base key is listed finding C16-KF1 (pinned by the unit tests) and filtered.",
          "DESIGN.md §3 C14-C17"),
+ "C04": ("exploration", "lock-step differential monitoring against a reference model with deadlines under a virtual clock (time-line programs with clock moves around deadlines and sampler rounds) plus an invariant assertion at the sampler's eviction hook",
+         "Every time-line of depth <=2 (thorough: <=3) over a 58-step alphabet (writes with deadlines, EXPIRE/PEXPIRE/EXPIREAT/PEXPIREAT with NX/XX/GT/LT, PERSIST, GETEX, TTL/PTTL/EXPIRETIME/PEXPIRETIME, readers and existence-conditional writers of every value type, clock moves to 1 ms before / exactly at / 1 ms after deadlines, synchronous sampler rounds) from 5 initial states including expired-but-present keys; seeded random time-lines over all commands of all types under every eviction policy name and sample sizes 1/2/20, with and without sampler rounds; a free-running lane with the real background sampler (5 ms ticker) where every eviction event is asserted at the hook (deadline < clock used) and live keys are checked against the model.",
+         "Trusts the injected virtual clock (all expiry logic reads it), the verif-tagged dump and the reference model. Expired keys are unobservable in the canonical dump on both sides, so only observable behaviour is compared.",
+         "DESIGN.md §3 C04"),
+ "C13": ("exploration", "dump-equality monitor: the side-effect-free dump of every database before and after each read-only or failing command must be equal; destination-mutation lane for aliasing",
+         "Every alphabet command of every data type on every initial state of every data type (about 20k one-step programs), plus seeded random programs over all commands with malformed arity, wrong-typed and expired-but-present keys and clock moves; every executed command that is classified read-only by the server's own command table (or is a destination-less algebra command named by the statement) or that fails must leave the whole canonical dump unchanged; after every STORE-form / LMOVE / SMOVE / RENAME the destination is mutated and every other key must stay unchanged.",
+         "No reference model: the oracle is dump equality. Classification is taken from the command table of the build under test.",
+         "DESIGN.md §3 C13"),
+ "C17": ("exploration", "lock-step differential monitoring of the sorted-set handlers against an executable reference scored map (replies + whole-store dump after every step), with a destination-mutation lane for aliasing",
+         "Every sequence of depth <=2 (thorough: <=3 on a reduced alphabet) over an alphabet of the 25 sorted-set commands from several initial states, aliasing lanes for the STORE forms, and seeded random programs over negative/fractional/infinite/equal scores, all ZADD flag combinations, score and lexicographic bounds, LIMIT windows, weights, aggregates, 1..n operands and wrong-typed keys; scores are small dyadic rationals so that sums are exact.",
+         "Trusts the verif-tagged dump, virtual clock and reference model (set-valued where statement and docs are silent). Four defects pinned by the unit tests are listed (C17-KF1..KF4) and filtered with narrow predicates.",
+         "DESIGN.md §3 C14-C17"),
+ "C19": ("exploration", "conservation monitor: at every quiescent point of random command histories the reported MemoryUsed must equal the sum of the server's own per-key size function over the keys currently stored",
+         "Seeded random histories over all commands of all value types in databases 0/1 with overwrites, in-place growth and shrinking of collections, deletes, expiry through virtual-clock moves and sampler rounds, FLUSHDB/FLUSHALL and renames; after every step (thorough: every third) the asynchronous cache goroutines are awaited through the async hooks and the figure is compared with the accounted size; zero after FLUSHALL; equality again after snapshot and AOF restores.",
+         "The per-key size function (KeyData.GetMem + key overhead) is taken as the definition of accounted size; only its agreement with the running counter is checked.",
+         "DESIGN.md §3 C19"),
+ "C20": ("exploration", "lock-step differential monitoring with three TCP connections and the embedded caller against a family of per-database reference maps and a per-connection selected index, plus a non-interference monitor on per-database bookkeeping",
+         "Seeded histories of data commands of all types, SELECT, SWAPDB, FLUSHDB, FLUSHALL over databases drawn from {0,1,2,9,10,11,123}; after every step the dump of every database must equal the reference (nothing changed in a database that was not selected), the volatile-key index and LRU/LFU heaps of the other databases must be unchanged, SELECT must affect only the issuing connection and SWAPDB every TCP connection; persistence legs write multi-database datasets through TCP and embedded callers and compare whole dumps after an AOF restart and a snapshot restore.",
+         "SWAPDB is checked for TCP connections existing when it is issued (SugarDB documents that the embedded caller is not swapped). The replication leg is C07's. Steps matching listed findings of the data-type models are filtered.",
+         "DESIGN.md §3 C20"),
  "C01": ("exploration", "lock-step differential monitoring of the real handlers against an executable reference typed map (replies + whole-store dump after every step)",
          "Every sequence of depth <=2 (thorough: <=3) over an 80-command alphabet from 8 initial states, plus seeded random programs of 40-80 steps over binary/numeric/huge values, run on fresh instances; each step's strict-parsed reply must be allowed by the reference model and the side-effect-free dump of the store must equal the model state. Held on what was explored, not a proof.",
          "Trusts the verif-tagged dump (reads the store under its own lock), the injected virtual clock, and the reference model in harness/model (set-valued where statement and docs are silent). Inputs matching a listed known finding are filtered out of exploration and replayed by a witness lane.",
